@@ -480,38 +480,17 @@ where
                     mask: initial_capacity.saturating_sub(1),
                 })
             }
-            StorageStrategy::SmallInline { inline_capacity, .. } => {
-                Ok(HashMapStorage::SmallInline {
-                    inline_data: InlineStorage {
-                        // SAFETY: This creates an array of MaybeUninit<(K, V)> values.
-                        // MaybeUninit<T> does not require initialization, so an array of
-                        // uninitialized MaybeUninit values is valid. Individual elements
-                        // are only accessed after being explicitly initialized.
-                        data: unsafe { MaybeUninit::uninit().assume_init() },
-                        occupied: 0,
-                    },
-                    fallback: None,
-                    len: 0,
-                })
-            }
-            StorageStrategy::CacheOptimized { .. } => {
-                Ok(HashMapStorage::CacheOptimized {
-                    buckets: FastVec::with_capacity(config.initial_capacity)?,
-                    hot_data: FastVec::with_capacity(config.initial_capacity)?,
-                    cold_data: FastVec::with_capacity(config.initial_capacity)?,
-                    prefetcher: Prefetcher::new(),
-                })
-            }
-            StorageStrategy::StringOptimized { arena_size, .. } => {
-                Ok(HashMapStorage::StringOptimized {
-                    arena: StringArena {
-                        data: FastVec::with_capacity(*arena_size)?,
-                        offsets: FastVec::with_capacity(256)?,
-                        interned: std::collections::HashMap::new(),
-                    },
+            StorageStrategy::SmallInline { .. }
+            | StorageStrategy::CacheOptimized { .. }
+            | StorageStrategy::StringOptimized { .. } => {
+                // The dedicated inline / cache-optimized / string-optimized back ends are not
+                // implemented yet (their insert/get/remove are placeholders that store nothing),
+                // so entries would silently be dropped. Until they exist these strategies use
+                // the standard open-addressing storage, like PoolAllocated below.
+                Ok(HashMapStorage::Standard {
                     buckets: FastVec::with_capacity(config.initial_capacity)?,
                     entries: FastVec::with_capacity(config.initial_capacity)?,
-                    prefix_cache: FastVec::with_capacity(config.initial_capacity)?,
+                    mask: config.initial_capacity.saturating_sub(1),
                 })
             }
             StorageStrategy::PoolAllocated { .. } => {
